@@ -88,7 +88,14 @@ _MAP_B = {
               "VER_NOT_BUILT": "(5,0,0):underline", "VER_NOT_MERGED": "ERROR:no_bold"},
     "HDOC": {"ATTR": "(4,3,0)", "FUNC_NAME": "75:bold", "TAG": "g16", "WARN": "WARN:no_blink,bold"},
 }
-CONF_SPECS = {"D": (None, False), "A": (_MAP_A, False), "B": (_MAP_B, False), "N": (_MAP_A, True)}
+# Items that hang a modifier on a syntax which is itself a palette-registered *alias* of a built-in one
+# ('HDOC.WARN' and 'TABLE.WARN' both alias 'WARN'); each item refers to a syntax registered by the same
+# component, so what it resolves to does not depend on which other component was used first.
+_MAP_C = {"HDOC": {"TAG": "HDOC.WARN:underline", "ATTR": "HDOC.WARN:faint"},
+          "TABLE": {"BORDER": "TABLE.WARN:bold", "HEADER": "TABLE.WARN:crossed"}}
+CONF_SPECS = {"D": (None, False), "A": (_MAP_A, False), "B": (_MAP_B, False), "N": (_MAP_A, True),
+              "C": (_MAP_C, False)}
+SPEC_OBJECTS = {}          # spec -> objects it is restricted to (none: the global config affects every object)
 COLORED_SPECS = ("D", "A", "B")
 
 
@@ -420,6 +427,7 @@ def build_object(name, shared):
         return Printable(name, kind, t)
     if name == "tblu":
         t = PPTable(list(UNKNOWN_RECORDS), fields=["id", "name", "status"], fields_types={"status": enum},
+                    fields_titles={"id": ["id", 2024], "status": ["status", None]},   # non-string title items
                     fmt=UNKNOWN_FMT, footer="")
         return Printable(name, kind, t)
     if name == "recu":
@@ -586,6 +594,8 @@ def reference_requests():
         for fmt in (FMT_STATES if name in ("tbl", "tbl2") else (None,)):
             reqs.append({"obj": name, "spec": "nc", "variant": "std", "route": "explicit", "fmt": fmt})
             for spec in CONF_SPECS:
+                if spec in SPEC_OBJECTS and name not in SPEC_OBJECTS[spec]:
+                    continue
                 if fmt is None:
                     reqs.append({"obj": name, "spec": spec, "variant": "std", "route": "global", "fmt": fmt})
                 if kind != "hdoc":
